@@ -30,6 +30,10 @@ pub struct Case {
     /// the host carries on). Programs of such cases contain no port reads (EAR is not modelled).
     #[serde(default)]
     pub tape: u8,
+    /// a host I/O extender claims every port whose low byte is 0xFE (the programs' port traffic then
+    /// goes to it): time is conserved all the same
+    #[serde(default)]
+    pub extender: bool,
 }
 
 const COUNTER: u16 = 0xB000;
@@ -124,7 +128,7 @@ fn case_strategy_with(max_frames: u8, port_reads: bool) -> impl Strategy<Value =
         any::<u32>(),
         proptest::collection::vec(1u8..=max_frames, 1..=6),
     )
-        .prop_map(|(machine, placement, bank, body, handler, handler_ends_with_ei, handler_reti, im, iff, start_t, calls)| Case {
+        .prop_map(move |(machine, placement, bank, body, handler, handler_ends_with_ei, handler_reti, im, iff, start_t, calls)| Case {
             machine,
             placement,
             bank,
@@ -135,6 +139,7 @@ fn case_strategy_with(max_frames: u8, port_reads: bool) -> impl Strategy<Value =
             im,
             iff,
             start_t,
+            extender: calls.len() % 3 == 0 && port_reads,
             calls,
             tape: 0,
         })
@@ -201,6 +206,11 @@ pub fn check(c: &Case, rec: &mut Rec) -> Result<(), String> {
     let start_t = c.start_t as u64 % frame_len;
     e.verif_set_frame_clocks(start_t as usize);
     let mut m = RefMachine::new(mem);
+    if c.extender {
+        e.set_io_extender(crate::host::LoggingExtender::new(vec![(0x00FF, 0x00FE)], 0x5A));
+        m.bus.ext = Some((vec![(0x00FF, 0x00FE)], 0x5A));
+        rec.class("io-extender-claims-xxFE");
+    }
     set_ref(&mut m.cpu, &CpuState { regs, memptr: 0, q_is_f: false, halted: false, no_int: false });
     {
         let cpu = e.verif_cpu();
@@ -430,7 +440,7 @@ pub fn replay(run: &mut Run, phase: &str, case: &serde_json::Value) -> Result<()
 }
 
 pub const LEVEL: &str = "exploration";
-pub const RULE: &str = "case = machine x program (loop of 1..40 generated blocks: ALU, loads, stack, HALT, EI/DI, DJNZ delays, LDIR, contended screen traffic, ULA port I/O) placed in uncontended, contended or paged RAM x interrupt handler (short filler+[EI]+RET that may re-enter within one pulse, or a self-counting handler of 0..1200 NOPs) x IM 0/1/2 x start T-state x 1..6 emulate_frames calls of 1..200 frames each; after EVERY call the emulator's (frame counter, frame clock, registers, halted) must equal the reference machine, whose clock is a single monotone T-state counter (frame = T div length, INT asserted iff T mod length < 32); all RAM compared at the end. programs-with-a-tape-playing: the same with a tape playing in real time (programs without port reads), in half of the cases a tape whose first block is empty, so that emulate_frames returns a tape error once and the host carries on with the remaining frames — time must be conserved all the same. evaluations = emulate_frames calls compared. non-trivial = run of >= 2 frames in which >= 1 instruction straddled a frame end with non-zero overrun; distinct = hash of the case";
+pub const RULE: &str = "case = machine x program (loop of 1..40 generated blocks: ALU, loads, stack, HALT, EI/DI, DJNZ delays, LDIR, contended screen traffic, ULA port I/O) placed in uncontended, contended or paged RAM x interrupt handler (short filler+[EI]+RET that may re-enter within one pulse, or a self-counting handler of 0..1200 NOPs) x IM 0/1/2 x start T-state x 1..6 emulate_frames calls of 1..200 frames each; after EVERY call the emulator's (frame counter, frame clock, registers, halted) must equal the reference machine, whose clock is a single monotone T-state counter (frame = T div length, INT asserted iff T mod length < 32); all RAM compared at the end; in a third of the cases a host I/O extender claims the ports xxFE the programs use. programs-with-a-tape-playing: the same with a tape playing in real time (programs without port reads), in half of the cases a tape whose first block is empty, so that emulate_frames returns a tape error once and the host carries on with the remaining frames — time must be conserved all the same. evaluations = emulate_frames calls compared. non-trivial = run of >= 2 frames in which >= 1 instruction straddled a frame end with non-zero overrun; distinct = hash of the case";
 pub const ASSUMPTIONS: &[&str] = &[
     "reference Z80 + contention model trusted (calibration, C03, C04)",
     "programs contain no prefix chains and no reads from unclaimed ports, so one emulate() call = optional interrupt entry + one instruction",
